@@ -57,6 +57,8 @@ func main() {
 		runC02(*out, *seed, *tier)
 	case "C08":
 		runC08(*out, *seed, *tier)
+	case "C18":
+		runC18(*out, *seed, *tier)
 	case "C10":
 		runC10(*out, *seed, *tier)
 	case "C04":
